@@ -33,7 +33,7 @@ def pat_vars(p):
 
 
 def gen_tmpl(rng, vars_, depth):
-    atoms = list(vars_) + ["x", "1", "if", "k"]
+    atoms = list(vars_) + ["x", "1", "if", "k", "_"]        # `_` in a template is an ordinary symbol, copied as it stands
     n = rng.randrange(0, 4)
     elems = []
     for i in range(n):
